@@ -289,7 +289,7 @@ func runC06(c *fw.Ctx) {
 	depth, maxCore := 3, 200
 	if c.Thorough() {
 		depth, maxCore = 4, 600
-		layouts = append(layouts, AllSmallLayouts()...)
+		layouts = append(layouts, ThoroughExtraLayouts()...)
 	}
 	c.R.Bounds["layouts"] = fmt.Sprint(len(layouts)) + " (+LP with whispertool as writer)"
 	c.R.Bounds["methods_xff"] = "6 methods x xff {0, 0.5}"
@@ -322,9 +322,12 @@ func runC06(c *fw.Ctx) {
 				}
 				cfg := ACfg{Tag: ld.Tag, Spec: ld.Spec, Archs: ld.Archs, Method: m.m, XFF: m.xff, Page: page}
 				e := &Explorer{C: c, Cfg: cfg, Now0: now, Depth: depth, Gen: c06Gen(cfg.Archs), Judge: c06FormatJudge, MaxCore: maxCore}
+				if li >= len(CoreLayouts) {
+					e.Depth, e.MaxCore = 3, 60
+				}
 				e.OnCore = func(st AState, rings []wsp.Ring) { c06CrossRead(c, cfg, st, "whispertool", false) }
 				e.Run()
-				c06Reverse(c, cfg, now, depth, maxCore)
+				c06Reverse(c, cfg, now, e.Depth, e.MaxCore)
 			}
 		}
 	}
